@@ -996,7 +996,9 @@ func (s *Server) cmdFSET(msg *Message) (resp.Value, commandDetails, error) {
 
 	var res resp.Value
 
-	if ret {
+	if ret && d.obj != nil {
+		// With XX the id may not exist; then nothing was set and there is
+		// no object to return, so fall through to the regular reply.
 		res := buildObjectResponse(msg, d.obj, start, kind, precision, withfields, msg.OutputType == JSON)
 		return res, d, nil
 	}
